@@ -173,3 +173,56 @@ func VerifH_HardNodeConcurrent() {
 	symx.Assert(a1 > last && b1 > last, "above the last id before the calls")
 	symx.Reach("end")
 }
+
+// C06/H6: two goroutines x `calls` Generate calls on one MonoNode under one shared monotonic
+// clock: every reading (whichever goroutine takes it, wherever it is scheduled) is the previous
+// reading or one millisecond later (symbolic), and the third reading in a row without progress
+// advances. All interleavings of the lock operations and of the clock readings.
+func VerifH_MonoNodeConcurrent() {
+	_nodeBits, _nodeAtLowest, _epoch = 10, false, 0
+	calls := symx.Param("calls", 2)
+	n := &MonoNode{}
+	n.time = int64(symx.Uint16("timeOff") & 1023)
+	n.node, n.step = 5, int64(symx.Uint16("step")&4095)
+	clock := n.time // ghost: the last reading of the monotonic clock
+	var stalled int64
+	symx.Stub("time.Since", func(t time.Time) time.Duration {
+		symx.YieldOn(&clock)
+		var adv int64
+		if symx.Bool("tick") || symx.GhostLoad(&stalled) >= 2 {
+			adv = 1
+			symx.GhostAdd(&stalled, -symx.GhostLoad(&stalled))
+		} else {
+			symx.GhostAdd(&stalled, 1)
+		}
+		ms := symx.GhostAdd(&clock, adv)
+		return time.Duration(ms * MsDivNs)
+	})
+	symx.Unwind(8)
+	last := verifEnc(n.time, n.node, n.step)
+	var a, b [2]int64
+	symx.Go("A", func() {
+		for i := 0; i < calls; i++ {
+			a[i] = n.Generate()
+		}
+	})
+	symx.Go("B", func() {
+		for i := 0; i < calls; i++ {
+			b[i] = n.Generate()
+		}
+	})
+	symx.WaitQuiescent()
+	for i := 0; i < calls; i++ {
+		symx.Assert(a[i] > last && b[i] > last, "above the last id issued before the calls")
+		for j := 0; j < calls; j++ {
+			symx.Assert(a[i] != b[j], "distinct across goroutines")
+		}
+		_, fa, _ := IDFields(a[i])
+		_, fb, _ := IDFields(b[i])
+		symx.Assert(fa == 5 && fb == 5, "node field equals the configured node")
+	}
+	if calls == 2 {
+		symx.Assert(a[1] > a[0] && b[1] > b[0], "per-goroutine strictly increasing")
+	}
+	symx.Reach("end")
+}
